@@ -16,7 +16,7 @@ pub fn mon() -> Mon {
         run,
         finish,
         replay,
-        rule: "Corruption workload against decode_packet and process_packet on a context A while a twin context B (identical configuration) receives the same history minus the bad packets: (a) every base packet (all library encoders, forged requests/responses for every command, all message types, maximum-length packets) x all 255 wrong PEC values; (b) every burst of <= 8 consecutive bits (all 128 patterns with the leading bit set) at every bit offset of a set of base packets covering every type/command/direction (40 packets quick, all in thorough); (c) random multi-bit damage; (d) random strings of every length with plausible headers; interleaved with valid traffic (assignments, queries, vendor messages) that goes to both A and B. Oracle (independent CRC-8): last byte != CRC of the rest => neither call returns Ok, the 64-300 byte poisoned response buffer is byte-identical afterwards, both EID accessors are unchanged, and every later common operation yields identical results and response bytes on A and B; conversely whenever either call returns Ok the PEC matches. The generator self-checks that every burst really changes the CRC. A sample is logged as JSONL and re-checked in Python. Non-trivial = input with a wrong PEC whose header is otherwise supported (it reaches a PEC comparison); distinct = distinct corrupted byte strings.",
+        rule: "Corruption workload against decode_packet and process_packet on a context A while a twin context B (identical configuration) receives the same history minus the bad packets: (a) every base packet (all library encoders, forged requests/responses for every command, all message types, maximum-length packets) x all 255 wrong PEC values; (b) every burst of <= 8 consecutive bits (all 128 patterns with the leading bit set) at every bit offset of a set of base packets covering every type/command/direction (40 packets quick, all in thorough); (c) random multi-bit damage; (d) random strings of every length with plausible headers; interleaved with valid traffic (assignments, queries, vendor messages) that goes to both A and B; before a damaged packet the contexts often see its intact original first - probed with get_length, decoded, or *processed* (a retransmission hit by a bit error right after the answered original). Oracle (independent CRC-8): last byte != CRC of the rest => neither call returns Ok, the 64-300 byte poisoned response buffer is byte-identical afterwards, both EID accessors are unchanged, and every later common operation yields identical results and response bytes on A and B; conversely whenever either call returns Ok the PEC matches. The generator self-checks that every burst really changes the CRC. A sample is logged as JSONL and re-checked in Python. Non-trivial = input with a wrong PEC whose header is otherwise supported (it reaches a PEC comparison); distinct = distinct corrupted byte strings.",
         assumptions: &["rejection for any other reason is fine; a panic counts as 'not accepted' (it is C10's event) but the no-state-change checks still apply after it"],
         children: rel_child_quarter,
     }
@@ -78,18 +78,21 @@ fn bad(p: &mut Pair, x: &[u8], kind: &'static str, rep: &mut Report) {
 /// header, a decode) - what a receiver does while a later copy of the packet gets damaged.
 fn bad_primed(p: &mut Pair, x: &[u8], kind: &'static str, prime: Option<&[u8]>, rep: &mut Report) {
     debug_assert!(!pec_ok(x));
-    let before = eids(p.a);
     let f = crate::refmodel::refdec::facts(x);
     let cls = crate::classify::decode_class_f(&f);
     for api in 0..2 {
         if let Some(v) = prime {
-            match (p.step + api) % 4 {
+            match (p.step + api) % 6 {
                 0 => good(p, &Op::GetLength(v.to_vec()), rep),
                 1 => good(p, &Op::GetLength(v[..3.min(v.len())].to_vec()), rep),
                 2 => good(p, &Op::GetLength(x.to_vec()), rep),
-                _ => good(p, &Op::Decode(v.to_vec()), rep),
+                3 => good(p, &Op::Decode(v.to_vec()), rep),
+                // a retransmission hit by a bit error: the intact packet was *processed* (answered,
+                // acted upon - on both contexts) and the damaged copy arrives right after it
+                _ => good(p, &Op::Process(v.to_vec()), rep),
             }
         }
+        let before = eids(p.a);
         let op = if api == 0 { Op::Decode(x.to_vec()) } else { Op::Process(x.to_vec()) };
         p.step += 1;
         let obs = exec(p.a, &op, 64 + (p.step % 237) as usize, p.step ^ 0xC02);
@@ -121,7 +124,7 @@ fn bad_primed(p: &mut Pair, x: &[u8], kind: &'static str, prime: Option<&[u8]>, 
                 ("pec_byte", J::s(format!("{:#04x}", x[x.len() - 1]))),
                 ("reference_crc8", J::s(format!("{:#04x}", crc8(&x[..x.len() - 1])))),
                 ("decode_packet", J::s(d.brief())),
-                ("eids_before_after", J::s(format!("{:?} -> {:?}", before, eids(p.a)))),
+                ("eids_after", J::s(format!("{:?}", eids(p.a)))),
             ])
         });
     }
